@@ -1,4 +1,5 @@
 from checks._world_common import ASSUMPTIONS, COMPONENTS, make, simplify_knobs, simplify_op  # noqa: F401
+from sim.cmd_scenario import CmdScenario
 
 PROP = "C05"
 LEVEL = "exploration"
@@ -10,7 +11,8 @@ PROFILE = dict(
     nontrivial_probes=['purity_checks', 'status_dryrun_run_triples', 'filtered_status_checks'],
     backends=["slurm", "slurm", "sge", "lsf", "local"],
     weights=dict(triple=3, status=1, status_filtered=3, dry_run=1.5, run=1, start=2, finish=2, sched_cancel=0.7,
-                 purge=0.5, acct_flush=0.5, modify_source=0.7, delete_output=0.7, edit_spec=0.5, advance=0.5),
+                 purge=0.5, acct_flush=0.5, modify_source=0.7, delete_output=0.7, edit_spec=0.5, advance=0.5, rename=0.5, remove=0.3,
+                 add=0.3),
     p_job_ok=0.5, p_hashing=0.5,
 )
-make_scenario = make({"C05"}, PROFILE)
+make_scenario = make({"C05"}, PROFILE, CmdScenario)
